@@ -199,6 +199,26 @@ func exec(planJSON []byte, run *core.Run) {
 		}
 		signer = blindrsa.NewSigner(key)
 	}
+	// history: the verifier and signer objects served an earlier session whose metadata sat
+	// in the same caller buffer, which is then refilled in place for this session
+	if pb && len(meta) > 0 && p.Seed%3 != 0 {
+		mbuf := make([]byte, len(meta))
+		for i := range mbuf {
+			mbuf[i] = ^meta[i]
+		}
+		core.Try(func() {
+			if bm, st, err := pverifier.Blind(core.NewStream(p.Seed+4242), msg, mbuf); err == nil {
+				if bs, err := psigner.BlindSign(bm, mbuf); err == nil {
+					if sg, err := st.Finalize(bs); err == nil {
+						_ = pverifier.Verify(msg, mbuf, sg)
+					}
+				}
+			}
+		})
+		copy(mbuf, meta)
+		meta = mbuf
+		run.Fault("history:objects-reused-metadata-buffer-refilled")
+	}
 
 	// blind: returns blinded message and a finaliser
 	type session struct {
@@ -497,9 +517,9 @@ func main() {
 		},
 		Components: map[string]string{
 			"blindrsa Client/Signer/Verifier, partiallyblindrsa Verifier/Signer/VerifierState": "real",
-			"transport of blinded message, blind signature, signature":                        "stub: simulated transport with replacement / corruption faults",
-			"preparation, salt and blinding randomness":                                       "stub: deterministic entropy device (split streams, error faults)",
-			"reference verifiers":                                                             "model: crypto/rsa.VerifyPSS and pssref",
+			"transport of blinded message, blind signature, signature":                         "stub: simulated transport with replacement / corruption faults",
+			"preparation, salt and blinding randomness":                                        "stub: deterministic entropy device (split streams, error faults)",
+			"reference verifiers": "model: crypto/rsa.VerifyPSS and pssref",
 		},
 		ProbeNames: []string{"modulus-of-8k+1-bits"},
 		Selftest: func() error {
